@@ -372,3 +372,4 @@ PROP = Prop(
                  'curved meshes: facet-basis route only, normals taken from the basis (judged in C10)'],
     subs=[Sub('continuity', body, strategy=case, quick=2400, thorough=30000)],
     design_ref='DESIGN.md section 6, C03')
+PROP.rule += ('. Added in round 2: the mesh is optionally replaced by its adaptive or uniform refinement (local orders as the library itself produces them), or a battery of operations is applied to it and their results discarded (oriented, translated, restrict, with_boundaries) before the traces are compared.')
